@@ -12,6 +12,7 @@ package types
 //verif:bound the field under test: byte strings of 0..2 arbitrary bytes, state data / argument lists that are empty, one item of 0..2 bytes or two items of 1 byte; all other byte strings have a fixed length of 1 byte (2 for programs) with arbitrary content, state data 1 item
 //verif:bound block headers: all five hashed fields arbitrary; witness 0..2 bytes, 0..1 sup links with signatures of 0..1 bytes; transaction lists of 1..4 arbitrary ids
 //verif:bound cross-type pairs: output 0 original vs vote (same asset/amount/program/VM version) and input spend vs veto (same prevout fields), vote key of exactly 0, 1 or 2 arbitrary bytes, the two state-data lists independent, each 0..2 items of 0..1 bytes (quick) / 0..2 bytes (thorough; inputs only with a 1-byte key); the program of the output does not start with OP_FAIL
+//verif:bound nil against empty: every variable-length byte field of every input/output kind (and the state-data list / its item) nil in one transaction and empty non-nil in the other -> same ID; neighbouring fields: control program, vote key and state data of output 0, each independently nil, empty non-nil or 1 arbitrary byte on both sides (state data: nil list, one empty item, one 1-byte item), all 81 (original) / 729 (vote) combinations, outputs that differ as values get different ids
 //verif:assume SHA3-256 is an uninterpreted function without collisions
 //verif:assume a transaction has at least one output (validation rejects a version-1 header without results: ErrEmptyResults); without outputs the ID does not depend on the inputs at all
 //verif:outside CommitmentSuffix / SpendCommitmentSuffix bytes and inputs of unknown asset versions (not mapped to entries); shapes with more than 2 inputs or outputs
@@ -23,6 +24,9 @@ package types
 //verif:obligation fn=VerifC03TxField args=2,0,14;2,0,16 tier=thorough maps=lazy timeout=600000 secs=6000
 //verif:obligation fn=VerifC03CrossType args=0,0,0;0,1,0;0,2,0;1,0,0;1,1,0;1,2,0 maps=lazy timeout=600000 secs=3600 validate=10
 //verif:obligation fn=VerifC03CrossType args=0,0,1;0,1,1;0,2,1;1,1,1 tier=thorough maps=lazy timeout=600000 secs=6000
+//verif:obligation fn=VerifC03NilEmpty args=0,0;1,1;2,1;3,0 maps=lazy timeout=600000 secs=3600 validate=10
+//verif:obligation fn=VerifC03Adjacent args=0,0,0;0,0,1;0,0,2;0,1,0;0,1,1;0,1,2;0,2,0;0,2,1;0,2,2 maps=lazy timeout=600000 secs=3600 validate=10
+//verif:obligation fn=VerifC03Adjacent args=1,0,0;1,0,1;1,0,2;1,1,0;1,1,1;1,1,2;1,2,0;1,2,1;1,2,2 maps=lazy timeout=600000 secs=3600
 //verif:obligation fn=VerifC03TxField args=3,0,30;3,0,61 maps=lazy timeout=600000 secs=3600
 //verif:obligation fn=VerifC03TxField args=0,0,40;0,0,41;0,0,42;0,0,43;0,0,44 maps=lazy timeout=600000 secs=3600
 //verif:obligation fn=VerifC03TxField args=0,1,40;0,1,41;0,1,42;0,1,43;0,1,44;0,1,45 maps=lazy timeout=600000 secs=3600
@@ -616,4 +620,131 @@ func VerifC03CrossType(side int, klen int, wide int) {
 		verifAssert(tx1.ID != tx2.ID, "input-type-changes-id")
 		verifReach("VerifC03CrossType:inputs")
 	}
+}
+
+// ---------------------------------------------------------------------------
+// nil against empty byte strings, and neighbouring variable-length fields
+
+// a byte string by option: 0 = nil, 1 = empty but non-nil, 2 = one arbitrary byte
+func verifC03Opt(name string, opt int) []byte {
+	switch opt {
+	case 0:
+		return nil
+	case 1:
+		return []byte{}
+	}
+	return verifBytesN(name, 1)
+}
+
+// a state-data list by option: 0 = nil list, 1 = one empty item, 2 = one item of one arbitrary byte
+func verifC03OptList(name string, opt int) [][]byte {
+	switch opt {
+	case 0:
+		return nil
+	case 1:
+		return [][]byte{{}}
+	}
+	return [][]byte{verifBytesN(name, 1)}
+}
+
+// VerifC03NilEmpty: one variable-length field is nil in tx1 and empty but
+// non-nil in tx2 (for lists also: nil list against empty list, nil item against
+// empty item); the wire form cannot tell them apart, so the ID must not either.
+// Every byte field of the input kind / output kind in turn.
+func VerifC03NilEmpty(inKind int, outKind int) {
+	in1 := verifC03NewIn(inKind, 0)
+	out1 := verifC03NewOut(outKind, 0)
+	in2, out2 := in1, out1
+	spendLike := inKind == verifC03Spend || inKind == verifC03Veto
+	switch verifChoice("field", 11) {
+	case 0:
+		verifAssume(inKind != verifC03Coinbase)
+		in1.program, in2.program = nil, []byte{}
+	case 1:
+		verifAssume(spendLike)
+		in1.stateData, in2.stateData = nil, [][]byte{}
+	case 2:
+		verifAssume(spendLike)
+		in1.stateData, in2.stateData = [][]byte{nil}, [][]byte{{}}
+	case 3:
+		verifAssume(inKind == verifC03Veto)
+		in1.vote, in2.vote = nil, []byte{}
+	case 4:
+		verifAssume(inKind == verifC03Issuance)
+		in1.nonce, in2.nonce = nil, []byte{}
+	case 5:
+		verifAssume(inKind == verifC03Issuance)
+		in1.assetDef, in2.assetDef = nil, []byte{}
+	case 6:
+		verifAssume(inKind == verifC03Coinbase)
+		in1.arbitrary, in2.arbitrary = nil, []byte{}
+	case 7:
+		out1.program, out2.program = nil, []byte{}
+	case 8:
+		out1.stateData, out2.stateData = nil, [][]byte{}
+	case 9:
+		out1.stateData, out2.stateData = [][]byte{nil}, [][]byte{{}}
+	default:
+		verifAssume(outKind == 1)
+		out1.vote, out2.vote = nil, []byte{}
+	}
+	version, timeRange := verifU64("version"), verifU64("timeRange")
+	tx1 := MapTx(&TxData{Version: version, TimeRange: timeRange, Inputs: []*TxInput{in1.txInput()}, Outputs: []*TxOutput{out1.txOutput()}})
+	tx2 := MapTx(&TxData{Version: version, TimeRange: timeRange, Inputs: []*TxInput{in2.txInput()}, Outputs: []*TxOutput{out2.txOutput()}})
+	verifObserveU64("id1", tx1.ID.V0)
+	verifObserveU64("id2", tx2.ID.V0)
+	verifAssert(tx1.ID == tx2.ID, "nil-and-empty-field-same-id")
+	verifReach("VerifC03NilEmpty:end")
+}
+
+// VerifC03Adjacent: two transactions identical except for the neighbouring
+// variable-length fields of output 0 -- control program, vote key (vote
+// outputs) and state data -- each of which is, independently on both sides,
+// nil, empty non-nil or one arbitrary byte (state data: nil list, one empty
+// item, one 1-byte item). Whenever the two outputs differ as VALUES (nil and
+// empty being the same value) their ids and the tx IDs differ; this includes
+// program nil + state [[x]] against program [y] + no state, and program nil +
+// vote K against program K + vote nil. pa, pb: the program option of each side.
+func VerifC03Adjacent(outKind int, pa int, pb int) {
+	in := verifC03NewIn(verifC03Spend, 0)
+	a := verifC03NewOut(outKind, 0)
+	b := a
+	va, vb := 0, 0
+	if outKind == 1 {
+		va, vb = verifChoice("voteOpt", 3), verifChoice("voteOpt'", 3)
+	}
+	sa, sb := verifChoice("stateOpt", 3), verifChoice("stateOpt'", 3)
+	a.program, b.program = verifC03Opt("outProgram", pa), verifC03Opt("outProgram'", pb)
+	a.vote, b.vote = verifC03Opt("outVote", va), verifC03Opt("outVote'", vb)
+	a.stateData, b.stateData = verifC03OptList("outState", sa), verifC03OptList("outState'", sb)
+	if len(a.program) > 0 {
+		verifAssume(a.program[0] != 0x6a) // not a retirement (KF-C03-RETIREMENT)
+	}
+	if len(b.program) > 0 {
+		verifAssume(b.program[0] != 0x6a)
+	}
+	// the two outputs differ as values: some length differs, or one of the bytes present on both sides differs
+	sameShape := len(a.program) == len(b.program) && len(a.vote) == len(b.vote) && len(a.stateData) == len(b.stateData)
+	if sameShape && len(a.stateData) == 1 {
+		sameShape = len(a.stateData[0]) == len(b.stateData[0])
+	}
+	if sameShape {
+		var xs, ys []byte
+		xs, ys = append(xs, a.program...), append(ys, b.program...)
+		xs, ys = append(xs, a.vote...), append(ys, b.vote...)
+		if len(a.stateData) == 1 {
+			xs, ys = append(xs, a.stateData[0]...), append(ys, b.stateData[0]...)
+		}
+		verifAssume(len(xs) > 0)
+		k := verifChoice("differsAt", len(xs))
+		verifAssume(xs[k] != ys[k])
+	}
+	version, timeRange := verifU64("version"), verifU64("timeRange")
+	tx1 := MapTx(&TxData{Version: version, TimeRange: timeRange, Inputs: []*TxInput{in.txInput()}, Outputs: []*TxOutput{a.txOutput()}})
+	tx2 := MapTx(&TxData{Version: version, TimeRange: timeRange, Inputs: []*TxInput{in.txInput()}, Outputs: []*TxOutput{b.txOutput()}})
+	verifObserveU64("id1", tx1.ID.V0)
+	verifObserveU64("id2", tx2.ID.V0)
+	verifAssert(tx1.ID != tx2.ID, "different-output-values-different-id")
+	verifAssert(*tx1.ResultIds[0] != *tx2.ResultIds[0], "different-output-values-different-output-id")
+	verifReach("VerifC03Adjacent:end")
 }
